@@ -528,6 +528,18 @@ func init() {
 		}
 	}
 
+	// hexutil encoders as (injective) key-family constructors
+	libModels["github.com/ethereum/go-ethereum/common/hexutil.EncodeUint64"] = func(c *libCall) (Val, bool) {
+		r := App(SBytes, "hexu64", c.arg(0))
+		c.fr.ex.Assumed["key algebra: hexutil.EncodeUint64 is injective (constructor)"] = true
+		return WithGo(r, types.Typ[types.String]), true
+	}
+	libModels["github.com/ethereum/go-ethereum/common/hexutil.Encode"] = func(c *libCall) (Val, bool) {
+		r := App(SBytes, "hexenc", c.arg(0))
+		c.fr.ex.Assumed["key algebra: hexutil.Encode is injective (constructor)"] = true
+		return WithGo(r, types.Typ[types.String]), true
+	}
+
 	// ---- time -----------------------------------------------------------------------------
 	tm := "(time.Time)."
 	libModels[tm+"Before"] = func(c *libCall) (Val, bool) { return App(SBool, "<", c.arg(0), c.arg(1)), true }
